@@ -12,6 +12,14 @@ for name in $seeds; do
   out=$(./check $prop --tier quick 2>&1 | grep -E "^(VIOLATION|OK|UNDECIDED|CHECKER|KNOWN)" | cut -c1-75 | sort -r | head -3 | tr "\n" " ")
   rc=$?
   git -C /repo checkout -- .
+  keys=$(python3 -c "
+import json,glob
+ks=[]
+for f in sorted(glob.glob('/verif/replays/${prop}_quick_*.json')):
+    d=json.load(open(f)); k=d.get('key','?')+('' if not d.get('no_failing_input_found') else ' [no input]')+(' (bounded)' if d.get('bounded') else '')
+    if k not in ks: ks.append(k)
+print('; '.join(ks[:8]))")
   echo "$name $prop -> $out"
+  echo "    keys: $keys"
 done
 rm -rf /tmp/verif_seed_evidence
